@@ -15,9 +15,11 @@ f) reads merge in-flight segments into their scan list, so a segment's files can
    a record boundary and whose result a process-wide cache keeps (<uid>_<field>.zfc: CompressedColumnIndex / GlobalColumnHandleCache; <uid>.idx: ZoneIndex / GlobalZoneIndexCache; <uid>_<field>.ebm:
    EnumBitmapIndex / GlobalEnumCache) must therefore appear atomically: each writer creates a path that is not its `path` parameter, and returns Ok only after rename(tmp, path) succeeded.
    (table frozen from the triage of the defect, one line per file; the strict loaders - bincode / count-prefixed - reject a partial file and are not listed)
+g) after a restart the live segment list is the list of PUBLISHED segments: ShardContext::new must build it from (or intersect it with) segments.idx - a numeric directory that is not in the index is
+   an unfinished flush or a compaction output whose hand-over never happened, and naming it in the live list makes reads open incomplete files.
 """
-FLOOR = 10
-REQUIRED = ["C11.a", "C11.b", "C11.c", "C11.f", "C11/C01.g", "C11/C03.c", "C11/C05.b1", "C11/C05.b2", "C11/C05.d", "C11/C05.e"]
+FLOOR = 11
+REQUIRED = ["C11.a", "C11.b", "C11.c", "C11.f", "C11.g", "C11/C01.g", "C11/C03.c", "C11/C05.b1", "C11/C05.b2", "C11/C05.d", "C11/C05.e"]
 
 SEGMOD = re.compile(r"^(engine::core::(column|filter|read::catalog|time|zone|snapshot|write)::|shared::storage_header::)")
 WRITER_ROOTS = {"engine::core::write::flusher::Flusher::flush", "engine::core::compaction::multi_uid_compactor::MultiUidCompactor::run",
@@ -159,6 +161,27 @@ def run(ctx):
                     bad.append(("ok-before-rename:%s" % short, "%s can return Ok without the rename having succeeded" % short, None))
         return bad
     ctx.run("C11.f", "K1 DOM + K7", "index-file writers (.zfc, .idx, .ebm)", "index files a reader may open before publication appear atomically", f_)
+
+    def g_(inst):
+        b = F.fn("ShardContext::new")
+        ld = one(b, r"SegmentIdLoader::load$")
+        # the live list: the value stored in the `segment_ids` field of the context / handed to FlushManager::new
+        ag = [(bb, v) for (bb, j, v, dst) in b.aggregates("ShardContext") if "segment_ids" in v.get("fields", [])]
+        if not ag:
+            raise AnchorMissing("ShardContext aggregate with segment_ids")
+        bb, v = ag[0]
+        op = v["o"][v["fields"].index("segment_ids")]
+        sl = wide_all(b, op, partial=False)
+        from_listing = ld.dest[0] in sl
+        idx_calls = [c_ for c_ in b.calls if not c_.cleanup and re.search(r"SegmentIndex::(load|open|read|iter_all|entries)|segment_index::", c_.nname) and c_.dest and c_.dest[0] in sl]
+        lb = F.fn("SegmentIdLoader::load")
+        fam = [lb] + [F.fn_exact(x) for x in F.find("^" + re.escape(lb.key) + r"::\{closure")]
+        loader_consults = any(re.search(r"SegmentIndex::|segment_index::", c_.nname) for B in fam for c_ in B.calls if not c_.cleanup)
+        inst.sites = [sp(b, ld.bb), sp(b, bb), "live list from directory listing=%s, consults segments.idx=%s" % (from_listing, bool(idx_calls) or loader_consults)]
+        if from_listing and not idx_calls and not loader_consults:
+            return [("live-list-from-directory-listing", "ShardContext::new takes every numeric directory under the shard as a live segment (SegmentIdLoader::load lists the directory and never consults segments.idx): after a crash the live list names unpublished, incomplete directories", None)]
+        return []
+    ctx.run("C11.g", "K10 READS", "ShardContext::new / SegmentIdLoader::load", "the live segment list after a restart names published segments only", g_)
 
 
 def cmp_count(fam):
